@@ -79,15 +79,20 @@ def m_fetch_add(ex, a, t):
 def m_fetch_sub(ex, a, t):
     at = target(a[0]); old = at.value.v; at.value.v = old - a[1]; return old
 def m_load(ex, a, t): return target(a[0]).value.v
-def m_slice_iter(ex, a, t): return ('iter', target(a[0]), 0)
+def m_slice_iter(ex, a, t):
+    v = target(a[0])
+    cells = v.e if isinstance(v, Array) else v.items
+    return IterObj([Ref(LCell(c)) for c in cells])
 def m_iter_any(ex, a, t):
-    _, arr, _ = target(a[0]); clo = a[1]
-    f = [fn for n, fn in ex.fns.items() if '{closure#' in n and clo.ty.split('@')[1].rstrip('}') in fn.header]
-    if len(f) != 1: raise Unknown('closure ' + clo.ty)
+    it = target(a[0]); clo = a[1]
     res = z3.BoolVal(False)
-    for c in arr.e:
-        r = ex.run(f[0], [Ref(LCell(Cell(clo))), Ref(LCell(c))])
-        res = z3.Or(res, r)
+    for x in it.items:
+        keep, v = run_stages(ex, it, x)
+        if not keep: continue
+        r = call_closure(ex, clo, [v])
+        res = z3.simplify(z3.Or(res, r))
+        if z3.is_true(res): break
+    it.items = []
     return res
 
 def m_opaque(ex, a, t): return Opaque(t)
@@ -299,8 +304,9 @@ MODELS += [
     (r'(?:^|::)std::io::Error::kind$', m_err_kind), (r'^<ErrorKind as PartialEq>::eq$', m_kind_eq),
     (r'(?:^|::)(mio::)?Poll::registry$', m_poll_registry), (r'(?:^|::)(mio::)?Token$', m_token),
 ]
+def m_vec_deref(ex, a, t): return a[0]
 def m_opt_is_none(ex, a, t): return z3.BoolVal(target(a[0]).variant == 'None')
-MODELS += [(r'(?:^|::)Option::<.*>::is_none$', m_opt_is_none)]
+MODELS += [(r'(?:^|::)Option::<.*>::is_none$', m_opt_is_none), (r'^<Vec<.*> as Deref(Mut)?>::deref(_mut)?$', m_vec_deref)]
 
 # ---- models for ServerWorker::poll
 class BoxObj:
